@@ -532,6 +532,7 @@ void TasgridWrapper::setTransform(){
     iassert(mat.getNumStrips() == num_dimensions,
             (std::string("the domain transform expects ") + std::to_string(num_dimensions) +
              " rows but found " + std::to_string(mat.getNumStrips()) + " in the file: " + transformfilename).c_str());
+    if (not pass_flag) return; // the rows and columns read below are not there
     std::vector<double> transa((size_t) num_dimensions);
     std::vector<double> transb((size_t) num_dimensions);
     for(int i=0; i<num_dimensions; i++){
